@@ -100,7 +100,7 @@ func TestVerif_C14_Stores(t *testing.T) {
 			rt.Fatalf("C14 %s: %s (plan %v)", id, msg, trace)
 		}
 		pushBeforeLog, pushAfterLog, pushTwice, refused := false, false, false, false
-		last := map[int]bool{0: true} // counters one of which the reference window was last centred on
+		last := map[int]bool{W: true} // counters one of which the reference window was last centred on (registration centres it on the counter reached by the key precomputation: c + W, here c = 0)
 		pushed := map[int]int{}
 		for _, st := range plan {
 			trace = append(trace, fmt.Sprintf("%s(%d)", st.Kind, st.K))
